@@ -532,4 +532,412 @@ theorem run_cap (ls : List Label) (s s' : St) (hinv : Inv s) (hcap : Cap s)
       simp only [hs] at h
       exact ih s1 (step_inv s s1 l hinv hs) (step_cap s s1 l hinv hcap hs) h
 
+/-! ## `paramPool` / `paramListPool` -/
+
+/-- A list of array ids without repetition, all allocated (`< n`). -/
+def Owned (n : Nat) (l : List Nat) : Prop := l.Nodup ∧ ∀ a ∈ l, a < n
+
+theorem Owned.perm {n : Nat} {l l' : List Nat} (h : Owned n l) (hp : l'.Perm l) : Owned n l' :=
+  ⟨hp.symm.nodup h.1, fun a ha => h.2 a (hp.mem_iff.1 ha)⟩
+
+theorem Owned.sublist {n : Nat} {l l' : List Nat} (h : Owned n l) (hs : l'.Sublist l) : Owned n l' :=
+  ⟨h.1.sublist hs, fun a ha => h.2 a (hs.subset ha)⟩
+
+theorem Owned.fresh {n : Nat} {l : List Nat} (h : Owned n l) : Owned (n + 1) (n :: l) := by
+  refine ⟨List.nodup_cons.2 ⟨fun hm => Nat.lt_irrefl _ (h.2 n hm), h.1⟩, ?_⟩
+  intro a ha
+  rcases List.mem_cons.1 ha with rfl | ha
+  · exact Nat.lt_succ_self _
+  · exact Nat.lt_succ_of_lt (h.2 a ha)
+
+theorem perm_cons_eraseIdx {α : Type} (l : List α) (k : Nat) (x : α) (hk : l[k]? = some x) :
+    l.Perm (x :: l.eraseIdx k) := by
+  induction l generalizing k with
+  | nil => simp at hk
+  | cons a l ih =>
+    cases k with
+    | zero =>
+      simp only [List.getElem?_cons_zero, Option.some.injEq] at hk
+      subst hk; simp
+    | succ k =>
+      simp only [List.getElem?_cons_succ] at hk
+      simp only [List.eraseIdx_cons_succ]
+      exact ((ih k hk).cons a).trans (List.Perm.swap x a _)
+
+/-- `csi.Parameters` of the running dispatch, as a list. -/
+def wl (s : PSt) : List Slice := match s.work with | some (l, _) => [l] | none => []
+/-- `param` of the running dispatch, as a list. -/
+def wp (s : PSt) : List Slice := match s.work with | some (_, some p) => [p] | _ => []
+
+/-- All headers reachable through delivered sequences. -/
+def dl (lh : List (List Slice)) (ds : List PDeliv) : List Slice := ds.flatMap fun d => hdrs lh d.l
+
+/-- The `[][]int` arrays in use, by owner: the running dispatch, the list pool, delivered sequences. -/
+def lowners (s : PSt) : List Nat := (wl s ++ s.lpool ++ s.delivered.map (·.l)).map (·.arr)
+
+/-- The `[]int` arrays in use, by owner: `param`, the headers already in `csi.Parameters`, the
+    param pool, the headers of delivered sequences. -/
+def powners (s : PSt) : List Nat :=
+  (wp s ++ (wl s).flatMap (hdrs s.lheap) ++ s.ppool ++ dl s.lheap s.delivered).map (·.arr)
+
+structure PInv (s : PSt) : Prop where
+  lown : Owned s.lheap.length (lowners s)
+  pown : Owned s.pheap.length (powners s)
+  wcap : ∀ l p, s.work = some (l, p) → l.len ≤ (cells s.lheap l.arr).length
+  intact : ∀ d ∈ s.delivered, readParams s.pheap s.lheap d.l = d.snap
+
+theorem PInv_init : PInv PSt.init := by
+  refine ⟨?_, ?_, ?_, ?_⟩ <;> simp [PSt.init, Owned, lowners, powners, wl, wp, dl]
+
+/-! ### frame lemmas -/
+
+theorem hdrs_alloc_lt (lh : List (List Slice)) (c : List Slice) (l : Slice) (h : l.arr < lh.length) :
+    hdrs (lh ++ [c]) l = hdrs lh l := by
+  simp only [hdrs, cells_alloc_lt _ _ _ h]
+
+theorem hdrs_write_ne (lh : List (List Slice)) (a i : Nat) (v l : Slice) (h : a ≠ l.arr) :
+    hdrs (write lh a i v) l = hdrs lh l := by
+  simp only [hdrs, cells_write_ne _ _ _ _ _ h]
+
+theorem hdrs_len_zero (lh : List (List Slice)) (a : Nat) : hdrs lh ⟨a, 0⟩ = [] := by
+  simp [hdrs]
+
+theorem hdrs_write_push (lh : List (List Slice)) (l p : Slice) (h1 : l.arr < lh.length)
+    (h2 : l.len < (cells lh l.arr).length) :
+    hdrs (write lh l.arr l.len p) ⟨l.arr, l.len + 1⟩ = hdrs lh l ++ [p] := by
+  simp only [hdrs, cells_write_eq _ _ _ _ h1, List.take_add_one, List.take_set_of_le (Nat.le_refl _),
+    List.getElem?_set_self h2, Option.toList_some]
+
+theorem hdrs_grow_push (lh : List (List Slice)) (l p : Slice) (nc : Nat)
+    (h2 : l.len ≤ (cells lh l.arr).length) :
+    hdrs (lh ++ [grow (cells lh l.arr) l.len p nc]) ⟨lh.length, l.len + 1⟩ = hdrs lh l ++ [p] := by
+  have hlen : ((cells lh l.arr).take l.len ++ [p]).length = l.len + 1 := by
+    simp only [List.length_append, List.length_take, List.length_cons, List.length_nil]; omega
+  simp only [hdrs, cells_alloc_eq, grow]
+  rw [List.take_append_of_le_length (by omega), ← hlen, List.take_length]
+
+theorem dl_congr (lh lh' : List (List Slice)) (ds : List PDeliv)
+    (h : ∀ d ∈ ds, hdrs lh' d.l = hdrs lh d.l) : dl lh' ds = dl lh ds := by
+  induction ds with
+  | nil => rfl
+  | cons d ds ih =>
+    simp only [dl, List.flatMap_cons] at ih ⊢
+    rw [h d (List.mem_cons_self), ih (fun e he => h e (List.mem_cons_of_mem _ he))]
+
+theorem readParams_congr (ph ph' : List (List Nat)) (lh lh' : List (List Slice)) (l : Slice)
+    (h1 : hdrs lh' l = hdrs lh l) (h2 : ∀ h ∈ hdrs lh l, cells ph' h.arr = cells ph h.arr) :
+    readParams ph' lh' l = readParams ph lh l := by
+  simp only [readParams, h1]
+  exact List.map_congr_left (fun h hh => by rw [h2 h hh])
+
+theorem mem_dl (lh : List (List Slice)) (ds : List PDeliv) (d : PDeliv) (hd : d ∈ ds) (h : Slice)
+    (hh : h ∈ hdrs lh d.l) : h ∈ dl lh ds := by
+  simp only [dl, List.mem_flatMap]; exact ⟨d, hd, hh⟩
+
+/-! ### what the invariant gives -/
+
+theorem PInv.del_lt {s : PSt} (hinv : PInv s) (d : PDeliv) (hd : d ∈ s.delivered) :
+    d.l.arr < s.lheap.length := by
+  apply hinv.lown.2
+  simp only [lowners, List.map_append, List.mem_append, List.mem_map]
+  exact Or.inr ⟨d.l, ⟨d, hd, rfl⟩, rfl⟩
+
+theorem PInv.del_hdr_lt {s : PSt} (hinv : PInv s) (d : PDeliv) (hd : d ∈ s.delivered) (h : Slice)
+    (hh : h ∈ hdrs s.lheap d.l) : h.arr < s.pheap.length := by
+  apply hinv.pown.2
+  simp only [powners, List.map_append, List.mem_append, List.mem_map]
+  exact Or.inr ⟨h, mem_dl _ _ d hd h hh, rfl⟩
+
+theorem PInv.del_ne_work {s : PSt} (hinv : PInv s) (l : Slice) (p : Option Slice)
+    (hw : s.work = some (l, p)) (d : PDeliv) (hd : d ∈ s.delivered) : l.arr ≠ d.l.arr := by
+  have h := hinv.lown.1
+  simp only [lowners, wl, hw, List.map_append, List.map_cons, List.cons_append,
+    List.nil_append, List.nodup_cons, List.mem_append, List.mem_map, not_or] at h
+  intro he
+  exact h.1.2 ⟨d.l, ⟨d, hd, rfl⟩, he.symm⟩
+
+theorem PInv.del_hdr_ne_param {s : PSt} (hinv : PInv s) (l p : Slice)
+    (hw : s.work = some (l, some p)) (d : PDeliv) (hd : d ∈ s.delivered) (h : Slice)
+    (hh : h ∈ hdrs s.lheap d.l) : p.arr ≠ h.arr := by
+  have hn := hinv.pown.1
+  simp only [powners, wp, hw, List.map_append, List.map_cons, List.cons_append,
+    List.nil_append, List.nodup_cons, List.mem_append, List.mem_map, not_or] at hn
+  intro he
+  exact hn.1.2 ⟨h, mem_dl _ _ d hd h hh, he.symm⟩
+
+/-! ### preservation, label by label -/
+
+/-- Delivered sequences are unaffected by a step that allocates in both heaps or neither, writes
+    `[]int` cells only outside delivered headers, and leaves delivered list arrays alone. -/
+theorem intact_frame (s : PSt) (hinv : PInv s) (ph' : List (List Nat)) (lh' : List (List Slice))
+    (h1 : ∀ d ∈ s.delivered, hdrs lh' d.l = hdrs s.lheap d.l)
+    (h2 : ∀ d ∈ s.delivered, ∀ h ∈ hdrs s.lheap d.l, cells ph' h.arr = cells s.pheap h.arr) :
+    ∀ d ∈ s.delivered, readParams ph' lh' d.l = d.snap := by
+  intro d hd
+  rw [readParams_congr s.pheap ph' s.lheap lh' d.l (h1 d hd) (h2 d hd)]
+  exact hinv.intact d hd
+
+theorem pstep_begin_inv (s s' : PSt) (gl : Option Nat) (hinv : PInv s)
+    (hstep : pstep s (.begin gl) = some s') : PInv s' := by
+  simp only [pstep] at hstep
+  split at hstep
+  · cases hstep
+  · rename_i hw
+    split at hstep
+    · simp only [Option.some.injEq] at hstep; subst hstep
+      have hfr : ∀ d ∈ s.delivered, hdrs (s.lheap ++ [List.replicate 4 default]) d.l = hdrs s.lheap d.l :=
+        fun d hd => hdrs_alloc_lt _ _ _ (hinv.del_lt d hd)
+      refine ⟨?_, ?_, ?_, ?_⟩
+      · have := hinv.lown.fresh
+        simpa [lowners, wl, hw] using this
+      · have := hinv.pown
+        simp only [powners, wl, wp, hw] at this ⊢
+        rw [dl_congr _ _ _ hfr]
+        simpa [hdrs_len_zero] using this
+      · intro l p hlp
+        simp only [Option.some.injEq, Prod.mk.injEq] at hlp
+        obtain ⟨rfl, _⟩ := hlp
+        exact Nat.zero_le _
+      · exact intact_frame s hinv _ _ hfr (fun _ _ _ _ => rfl)
+    · rename_i k
+      split at hstep
+      · cases hstep
+      · rename_i l0 hl0
+        simp only [Option.some.injEq] at hstep; subst hstep
+        refine ⟨?_, ?_, ?_, hinv.intact⟩
+        · refine hinv.lown.perm ?_
+          have hp := (perm_cons_eraseIdx s.lpool k l0 hl0).map (·.arr)
+          simp only [lowners, wl, hw, List.map_append, List.map_cons, List.nil_append,
+            List.cons_append]
+          simp only [List.map_cons] at hp
+          exact (List.Perm.append_right _ hp).symm
+        · have := hinv.pown
+          simp only [powners, wl, wp, hw] at this ⊢
+          simpa [hdrs_len_zero] using this
+        · intro l p hlp
+          simp only [Option.some.injEq, Prod.mk.injEq] at hlp
+          obtain ⟨rfl, _⟩ := hlp
+          exact Nat.zero_le _
+
+theorem PInv.work_lt {s : PSt} (hinv : PInv s) (l : Slice) (p : Option Slice)
+    (hw : s.work = some (l, p)) : l.arr < s.lheap.length := by
+  apply hinv.lown.2
+  simp [lowners, wl, hw]
+
+theorem pstep_get_inv (s s' : PSt) (gp : Option Nat) (hinv : PInv s)
+    (hstep : pstep s (.get gp) = some s') : PInv s' := by
+  simp only [pstep] at hstep
+  split at hstep
+  · rename_i l hw
+    split at hstep
+    · simp only [Option.some.injEq] at hstep; subst hstep
+      refine ⟨?_, ?_, ?_, ?_⟩
+      · have := hinv.lown
+        simpa only [lowners, wl, hw] using this
+      · have := hinv.pown.fresh
+        simpa [powners, wl, wp, hw] using this
+      · intro l' p' hlp
+        simp only [Option.some.injEq, Prod.mk.injEq] at hlp
+        obtain ⟨rfl, _⟩ := hlp
+        exact hinv.wcap _ _ hw
+      · exact intact_frame s hinv _ _ (fun _ _ => rfl)
+          (fun d hd h hh => cells_alloc_lt _ _ _ (hinv.del_hdr_lt d hd h hh))
+    · rename_i k
+      split at hstep
+      · cases hstep
+      · rename_i p0 hp0
+        simp only [Option.some.injEq] at hstep; subst hstep
+        refine ⟨?_, ?_, ?_, hinv.intact⟩
+        · have := hinv.lown
+          simpa only [lowners, wl, hw] using this
+        · refine hinv.pown.perm ?_
+          have hp := (perm_cons_eraseIdx s.ppool k p0 hp0).map (·.arr)
+          simp only [powners, wl, wp, hw, List.map_append, List.map_cons, List.nil_append,
+            List.cons_append, List.flatMap_cons, List.flatMap_nil, List.append_nil]
+          simp only [List.map_cons] at hp
+          rw [List.perm_iff_count] at hp ⊢
+          intro a
+          have := hp a
+          simp only [List.count_append, List.count_cons] at this ⊢
+          omega
+        · intro l' p' hlp
+          simp only [Option.some.injEq, Prod.mk.injEq] at hlp
+          obtain ⟨rfl, _⟩ := hlp
+          exact hinv.wcap _ _ hw
+  · cases hstep
+
+theorem pstep_app_inv (s s' : PSt) (v nc : Nat) (hinv : PInv s)
+    (hstep : pstep s (.app v nc) = some s') : PInv s' := by
+  simp only [pstep] at hstep
+  split at hstep
+  · rename_i l p hw
+    split at hstep
+    · simp only [Option.some.injEq] at hstep; subst hstep
+      refine ⟨?_, ?_, ?_, ?_⟩
+      · have := hinv.lown
+        simpa only [lowners, wl, hw] using this
+      · have := hinv.pown
+        simpa [powners, wl, wp, hw, length_write] using this
+      · intro l' p' hlp
+        simp only [Option.some.injEq, Prod.mk.injEq] at hlp
+        obtain ⟨rfl, _⟩ := hlp
+        exact hinv.wcap _ _ hw
+      · exact intact_frame s hinv _ _ (fun _ _ => rfl)
+          (fun d hd h hh => cells_write_ne _ _ _ _ _ (hinv.del_hdr_ne_param l p hw d hd h hh))
+    · split at hstep
+      · simp only [Option.some.injEq] at hstep; subst hstep
+        refine ⟨?_, ?_, ?_, ?_⟩
+        · have := hinv.lown
+          simpa only [lowners, wl, hw] using this
+        · have h0 := hinv.pown
+          simp only [powners, wl, wp, hw, List.map_append, List.map_cons,
+            List.cons_append, List.nil_append] at h0
+          have := (h0.sublist (List.sublist_cons_self _ _)).fresh
+          simpa [powners, wl, wp, hw] using this
+        · intro l' p' hlp
+          simp only [Option.some.injEq, Prod.mk.injEq] at hlp
+          obtain ⟨rfl, _⟩ := hlp
+          exact hinv.wcap _ _ hw
+        · exact intact_frame s hinv _ _ (fun _ _ => rfl)
+            (fun d hd h hh => cells_alloc_lt _ _ _ (hinv.del_hdr_lt d hd h hh))
+      · cases hstep
+  · cases hstep
+
+theorem pstep_push_inv (s s' : PSt) (nc : Nat) (hinv : PInv s)
+    (hstep : pstep s (.push nc) = some s') : PInv s' := by
+  simp only [pstep] at hstep
+  split at hstep
+  · rename_i l p hw
+    have hlt := hinv.work_lt l _ hw
+    split at hstep
+    · rename_i hroom
+      simp only [Option.some.injEq] at hstep; subst hstep
+      have hfr : ∀ d ∈ s.delivered, hdrs (write s.lheap l.arr l.len p) d.l = hdrs s.lheap d.l :=
+        fun d hd => hdrs_write_ne _ _ _ _ _ (hinv.del_ne_work l _ hw d hd)
+      refine ⟨?_, ?_, ?_, ?_⟩
+      · have := hinv.lown
+        simpa [lowners, wl, hw, length_write] using this
+      · refine hinv.pown.perm ?_
+        simp only [powners, wl, wp, hw, List.flatMap_cons, List.flatMap_nil, List.append_nil,
+          List.nil_append]
+        rw [dl_congr _ _ _ hfr, hdrs_write_push _ _ _ hlt hroom]
+        simp only [List.map_append, List.map_cons, List.map_nil]
+        rw [List.perm_iff_count]
+        intro a
+        simp only [List.count_append, List.count_cons, List.count_nil]
+        omega
+      · intro l' p' hlp
+        simp only [Option.some.injEq, Prod.mk.injEq] at hlp
+        obtain ⟨rfl, _⟩ := hlp
+        simp only [cells_write_eq _ _ _ _ hlt, List.length_set]
+        exact hroom
+      · exact intact_frame s hinv _ _ hfr (fun _ _ _ _ => rfl)
+    · split at hstep
+      · rename_i hn
+        simp only [Option.some.injEq] at hstep; subst hstep
+        have hfr : ∀ d ∈ s.delivered,
+            hdrs (s.lheap ++ [grow (cells s.lheap l.arr) l.len p nc]) d.l = hdrs s.lheap d.l :=
+          fun d hd => hdrs_alloc_lt _ _ _ (hinv.del_lt d hd)
+        have hc := hinv.wcap _ _ hw
+        refine ⟨?_, ?_, ?_, ?_⟩
+        · have h0 := hinv.lown
+          simp only [lowners, wl, hw, List.map_append, List.map_cons,
+            List.cons_append, List.nil_append] at h0
+          have := (h0.sublist (List.sublist_cons_self _ _)).fresh
+          simpa [lowners, wl, hw] using this
+        · refine hinv.pown.perm ?_
+          simp only [powners, wl, wp, hw, List.flatMap_cons, List.flatMap_nil, List.append_nil,
+            List.nil_append]
+          rw [dl_congr _ _ _ hfr, hdrs_grow_push _ _ _ _ hc]
+          simp only [List.map_append, List.map_cons, List.map_nil]
+          rw [List.perm_iff_count]
+          intro a
+          simp only [List.count_append, List.count_cons, List.count_nil]
+          omega
+        · intro l' p' hlp
+          simp only [Option.some.injEq, Prod.mk.injEq] at hlp
+          obtain ⟨rfl, _⟩ := hlp
+          simp only [cells_alloc_eq, length_grow _ _ _ _ hc hn]
+          exact hn
+        · exact intact_frame s hinv _ _ hfr (fun _ _ _ _ => rfl)
+      · cases hstep
+  · cases hstep
+
+theorem pstep_emit_inv (s s' : PSt) (hinv : PInv s)
+    (hstep : pstep s .emit = some s') : PInv s' := by
+  simp only [pstep] at hstep
+  split at hstep
+  · rename_i l hw
+    split at hstep
+    · cases hstep
+    · simp only [Option.some.injEq] at hstep; subst hstep
+      refine ⟨?_, ?_, ?_, ?_⟩
+      · refine hinv.lown.perm ?_
+        simp only [lowners, wl, hw, List.map_append, List.map_cons, List.map_nil, List.nil_append]
+        rw [List.perm_iff_count]
+        intro a
+        simp only [List.count_append, List.count_cons, List.count_nil]
+        omega
+      · refine hinv.pown.perm ?_
+        simp only [powners, wl, wp, hw, dl, List.flatMap_cons, List.flatMap_nil, List.append_nil,
+          List.nil_append, List.map_append]
+        rw [List.perm_iff_count]
+        intro a
+        simp only [List.count_append]
+        omega
+      · intro l' p' hlp; cases hlp
+      · intro d hd
+        rcases List.mem_cons.1 hd with rfl | hd
+        · rfl
+        · exact hinv.intact d hd
+  · cases hstep
+
+theorem pstep_finish_inv (s s' : PSt) (k : Nat) (hinv : PInv s)
+    (hstep : pstep s (.finish k) = some s') : PInv s' := by
+  simp only [pstep] at hstep
+  split at hstep
+  · cases hstep
+  · rename_i d hd
+    simp only [Option.some.injEq] at hstep; subst hstep
+    have hperm := perm_cons_eraseIdx s.delivered k d hd
+    refine ⟨?_, ?_, hinv.wcap, fun e he => hinv.intact e (List.mem_of_mem_eraseIdx he)⟩
+    · refine hinv.lown.perm ?_
+      have hp := (hperm.map (·.l)).map (·.arr)
+      simp only [lowners, wl, List.map_append, List.map_cons]
+      simp only [List.map_cons] at hp
+      rw [List.perm_iff_count] at hp ⊢
+      intro a
+      have := hp a
+      simp only [List.count_append, List.count_cons] at this ⊢
+      omega
+    · refine hinv.pown.perm ?_
+      have hp := (hperm.flatMap_right (fun d => hdrs s.lheap d.l)).map (·.arr)
+      simp only [powners, wl, wp, dl, List.map_append]
+      simp only [List.flatMap_cons, List.map_append] at hp
+      rw [List.perm_iff_count] at hp ⊢
+      intro a
+      have := hp a
+      simp only [List.count_append] at this ⊢
+      omega
+
+theorem pstep_inv (s s' : PSt) (l : PLabel) (hinv : PInv s) (hstep : pstep s l = some s') : PInv s' := by
+  cases l with
+  | «begin» gl => exact pstep_begin_inv s s' gl hinv hstep
+  | get gp => exact pstep_get_inv s s' gp hinv hstep
+  | app v nc => exact pstep_app_inv s s' v nc hinv hstep
+  | push nc => exact pstep_push_inv s s' nc hinv hstep
+  | emit => exact pstep_emit_inv s s' hinv hstep
+  | finish k => exact pstep_finish_inv s s' k hinv hstep
+
+theorem prun_inv (ls : List PLabel) (s s' : PSt) (hinv : PInv s) (h : prun s ls = some s') : PInv s' := by
+  induction ls generalizing s with
+  | nil => simp only [prun, Option.some.injEq] at h; rw [← h]; exact hinv
+  | cons l ls ih =>
+    simp only [prun] at h
+    cases hs : pstep s l with
+    | none => simp [hs] at h
+    | some s1 =>
+      simp only [hs] at h
+      exact ih s1 (pstep_inv s s1 l hinv hs) h
+
 end VaxisModel.Lemmas.ParserPools
